@@ -19,6 +19,15 @@ CHECKS = {
  "C09": dict(level="model_checking", technique="explicit-state exploration (SEQ) of the credential x permission-list x command matrix against a reference permission model",
    text="Prefixes over credential letters (wrong password, valid/invalid db and user tokens, other db) and 49 administrator permission lists ({r,w,i,x} subsets x prefix/suffix/contains patterns, multi-entry, 'all'); in every reached state every command line of the generated alphabet is executed and judged by a reference policy: unauthorized => full node state unchanged and no data returned; granted => not refused; failed use-db leaves the selection.",
    note="`election <x>` (active form) queues a broadcast only; queue traffic is not counted as state. arbiter registration judged as needing a selection only.", design="7/C09"),
+ "C10": dict(level="model_checking", technique="bounded-exhaustive input enumeration (SEQ): every parser command word x boundary-token argument lists, alone and after every state-changing line, with a second-client probe",
+   text="Every command word (plus unknown ones) x all argument lists of 0-2 boundary tokens, and 49 well-formed templates with up to two deviating tokens (empty, spaces, non-numeric, i32/u64/u128 boundaries, $$ keys, ';', 5000-byte token, non-ASCII), as unauthenticated, token and admin session; each line alone and after every state-changing first line. Oracle: no handler panic (with source location), no poisoned lock anywhere in the node, the real replication loop and supervisor (polled by hand) still alive, a second client's set/get/remove answered correctly.",
+   note="Built with overflow checks (test profile). Link threads created by join are parked by hook H7. Real TCP/HTTP/WS transports are exercised by C17/C20; random byte strings (sampling) are not used.", design="7/C10"),
+ "C12": dict(level="model_checking", technique="exhaustive enumeration of log shapes x since values on the real oplog writer/reader; end-to-end histories through the real replication loop; rotation in child processes",
+   text="(a) raw logs of 0..24 strictly increasing records and every composition of 2..9 records into runs of equal timestamps x every since in {first-1, each t, t+-1, last+1}: every record at/after since must be returned, last_op_time = newest; (b) every client history of <=4 operations over 2 dbs x 3 keys x {create-db,set,remove,snapshot} through the real replication loop, then the real catch-up query for every since: every (db,key) with a record at/after since, labelled by its newest record; (c) rotation with NUN_MAX_OP_LOG_SIZE in {500,750,1250}: unique keys, round-robin keys with changing kinds, cold+hot keys, before and after declutter.",
+   note="Queries may return older operations too (not a violation). Rotated files are told apart by birth time (rotations spaced 12 ms apart; colliding birth times abort the run as machinery error).", design="7/C12"),
+ "C15": dict(level="model_checking", technique="explicit-state BFS over register/ack events on the real pending-operation functions vs a set-based reference",
+   text="All sequences up to the bound of register(op,node) / ack(op,node) / foreign ack over 2-3 operations x 3 nodes (acks before registration, duplicates, never-targeted names) on the real register_pending_opp, the real `ack` command, get_pending_opp_copy and get_oplog_state; after every event pending set, both counters and the reported pending count must equal the reference (op -> targeted, acked). Plus a no-merge pass over all histories of one operation.",
+   note="Each (operation, member) is registered at most once, as the fan-out loop does.", design="7/C15"),
 }
 
 def main():
